@@ -153,14 +153,14 @@ def make_cert(subject_key, issuer_key=None, subject_cn="subject", issuer_cn=None
     return b.sign(issuer_key, _hash_for(issuer_key))
 
 
-def make_chain(keys: list, cn_prefix: str = "c") -> list[x509.Certificate]:
-    """keys[0] is the root (self-signed); every certificate but the last is a CA."""
+def make_chain(keys: list, cn_prefix: str = "c", last_ca: bool = False) -> list[x509.Certificate]:
+    """keys[0] is the root (self-signed); every certificate but the last is a CA (the last one only if last_ca)."""
     certs = []
     for i, k in enumerate(keys):
         issuer = keys[i - 1] if i else k
         certs.append(
             make_cert(k, issuer, subject_cn="%s%d" % (cn_prefix, i), issuer_cn="%s%d" % (cn_prefix, max(0, i - 1)) if i else "%s0" % cn_prefix,
-                      ca=(i < len(keys) - 1) or len(keys) == 1, serial=0x1000 + i)
+                      ca=(i < len(keys) - 1) or last_ca, serial=0x1000 + i)
         )
     return certs
 
